@@ -65,16 +65,24 @@ def Spec.degree : Spec → Nat
   | .soc _ => 1
   | .psd n => n
 
-/-- cut `z` into the cones' ranges (`&z[rng]`; a range past the end panics) -/
-def cut (specs : List Spec) (z : Array α) : MErr (List (Spec × Array α)) :=
-  let rec go : List Spec → Nat → MErr (List (Spec × Array α))
-    | [], _ => pure []
-    | sp :: rest, start =>
-      if start + sp.numel > z.size then throw (.panic "range end index out of range")
-      else do
-        let tl ← go rest (start + sp.numel)
-        pure ((sp, z.extract start (start + sp.numel)) :: tl)
-  go specs 0
+/-- cut a vector (as a list) into the cones' ranges (`&z[rng]`; a range past the end
+panics) -/
+def cutL : List Spec → List α → MErr (List (Spec × Array α))
+  | [], _ => pure []
+  | sp :: rest, l =>
+    if l.length < sp.numel then throw (.panic "range end index out of range")
+    else do
+      let tl ← cutL rest (l.drop sp.numel)
+      pure ((sp, (l.take sp.numel).toArray) :: tl)
+
+def cut (specs : List Spec) (z : Array α) : MErr (List (Spec × Array α)) := cutL specs z.toList
+
+/-- total number of entries covered by the cones -/
+def totalNumel (specs : List Spec) : Nat := (specs.map Spec.numel).sum
+
+/-- glue the cones' blocks back together; entries past the last cone are untouched -/
+def glue (specs : List Spec) (outs : List (Array α)) (z : Array α) : Array α :=
+  ((outs.map Array.toList).flatten ++ z.toList.drop (totalNumel specs)).toArray
 
 section
 variable [Add α] [Mul α] [Sub α] [Div α] [Neg α] [OfNat α 0] [OfNat α 1] [LT α] [DecidableLT α]
@@ -110,9 +118,7 @@ def shift1 (a : α) (primal : Bool) : Spec → Array α → MErr (Array α)
 def scaledUnitShift (specs : List Spec) (z : Array α) (a : α) (primal : Bool) : MErr (Array α) := do
   let parts ← cut specs z
   let outs ← parts.mapM (fun p => shift1 a primal p.1 p.2)
-  -- entries past the last cone are untouched
-  let used := (specs.map Spec.numel).foldl (· + ·) 0
-  pure (outs.foldl (· ++ ·) #[] ++ z.extract used z.size)
+  pure (glue specs outs z)
 
 def unitInit1 : Spec → Array α → Array α → MErr (Array α × Array α)
   | .zero _, z, s => pure (Zero.unitInitialization z s)
@@ -125,9 +131,7 @@ def unitInitialization (specs : List Spec) (z s : Array α) : MErr (Array α × 
   let pz ← cut specs z
   let ps ← cut specs s
   let outs ← (pz.zip ps).mapM (fun p => unitInit1 p.1.1 p.1.2 p.2.2)
-  let used := (specs.map Spec.numel).foldl (· + ·) 0
-  pure (outs.foldl (fun acc o => acc ++ o.1) #[] ++ z.extract used z.size,
-        outs.foldl (fun acc o => acc ++ o.2) #[] ++ s.extract used s.size)
+  pure (glue specs (outs.map (·.1)) z, glue specs (outs.map (·.2)) s)
 
 /-- `_shift_to_cone_interior` -/
 def shiftToConeInterior (specs : List Spec) (z : Array α) (primal : Bool) : MErr (Array α) := do
